@@ -36,16 +36,25 @@ SIZE_CLASSES = {
     "k255v1": (255, 1),
     "k1v70k": (1, 70_000),
     "k2v300": (2, 300),
+    # value CONTENTS that look like file structure: zero bytes (= empty blocks with empty keys) and a
+    # run of well-formed little blocks; whatever is left of such a value behind a too-short cut or an
+    # overwrite parses as records
+    "k1v40z": (1, 40, "zeros"),
+    "k2v42b": (2, 42, "blocks"),
 }
 
 
 def mk_kv(cls: str, pos: int, seed: int):
-    kl, vl = SIZE_CLASSES[cls]
+    kl, vl, *content = SIZE_CLASSES[cls]
     tag = "pqrs"[pos]
     key = (tag * kl).encode() if kl < 255 else (tag.encode() + b"k" * 254)
     blk = hashlib.sha256(f"{cls}{pos}{seed}".encode()).digest()
     # never all-zero, never starting with a byte sequence that equals its own prefix padding
     val = (blk * (vl // len(blk) + 1))[:vl]
+    if content == ["zeros"]:
+        val = bytes(vl)
+    elif content == ["blocks"]:
+        val = (b"\x01\x00\x00\x00\x01Kx" * (vl // 7 + 1))[:vl]
     return key, val
 
 
@@ -209,7 +218,7 @@ class Rec:
             _forget(c)
 
     # ---- recovery histories ----------------------------------------------------------------
-    def recover_all(self, img: bytes, committed, session, cutc, case, depth2: bool, coll: bool):
+    def recover_all(self, img: bytes, committed, session, cutc, case, depth2: bool, coll: bool, f0: bytes = None):
         ctx = self.ctx
         n = 0
         # R1: reopen read-only, full read
@@ -324,6 +333,97 @@ class Rec:
 
             self._try("R4[one-collection:writing,reading,writing,reading]", r4c, committed, session, {NEWKEY: NEWVAL, NEWKEY2: NEWVAL2}, cutc, case, must_have=(NEWKEY, NEWKEY2))
             n += 1
+        # R5: ONE long-lived object whose FIRST session after the crash is a read, then an append, then a
+        # fresh reader (anything the object remembers from an earlier open - mode, index, end of file -
+        # is carried into the append)
+        self.path.write_bytes(img)
+
+        def r5():
+            h = UKVFile(self.path, mode="r")
+            try:
+                first = {k: h.get(k) for k in list(h.keys())}
+                h.close()
+                h.open("a")
+                h.put(NEWKEY, NEWVAL)
+                h.close()
+            finally:
+                if not h.closed:
+                    h.close()
+            out = self.read_ukv("r")
+            if any(first[k] != out.get(k) for k in first):
+                out[b"<first-read-differs>"] = b""
+            return out
+
+        self._try("R5[one-handle:r,a+put;fresh-r]", r5, committed, session, {NEWKEY: NEWVAL}, cutc, case, must_have=(NEWKEY,))
+        n += 1
+        if coll:
+            self.path.write_bytes(img)
+
+            def r5c():
+                c = Collection(self.path, UkvCollectionBackend, readonly=False)
+                try:
+                    with c.reading(timeout=1.0):
+                        first = {k.encode(): c[k] for k in sorted(c.keys())}
+                    with c.writing(timeout=1.0):
+                        c[NEWKEY.decode()] = NEWVAL
+                finally:
+                    _forget(c)
+                out = self.read_coll()
+                if any(first[k] != out.get(k) for k in first):
+                    out[b"<first-read-differs>"] = b""
+                return out
+
+            self._try("R5[one-collection:reading,writing+put;fresh-reading]", r5c, committed, session, {NEWKEY: NEWVAL}, cutc, case, must_have=(NEWKEY,))
+            n += 1
+        # R6: a SURVIVOR - a handle of another process that used the library before the crashing session
+        # started (one idle session of either kind on the pre-session file) and goes on using it after the
+        # crash: first a read, or first an append, each followed by a fresh reader
+        if f0 is not None:
+            for pre in ("r", "a"):
+                for then in ("r", "a+put"):
+
+                    def r6(pre=pre, then=then):
+                        self.path.write_bytes(f0)
+                        h = UKVFile(self.path, mode=pre)
+                        try:
+                            h.close()
+                            self.path.write_bytes(img)
+                            if then == "r":
+                                h.open("r")
+                                out = {k: h.get(k) for k in list(h.keys())}
+                                h.close()
+                                return out
+                            h.open("a")
+                            h.put(NEWKEY, NEWVAL)
+                            h.close()
+                        finally:
+                            if not h.closed:
+                                h.close()
+                        return self.read_ukv("r")
+
+                    ex, mh = ({}, ()) if then == "r" else ({NEWKEY: NEWVAL}, (NEWKEY,))
+                    self._try(f"R6[survivor-handle({pre});{then}]", r6, committed, session, ex, cutc, case, must_have=mh)
+                    n += 1
+                    if coll:
+
+                        def r6c(pre=pre, then=then):
+                            self.path.write_bytes(f0)
+                            c = Collection(self.path, UkvCollectionBackend, readonly=False)
+                            try:
+                                with (c.reading(timeout=1.0) if pre == "r" else c.writing(timeout=1.0)):
+                                    pass
+                                self.path.write_bytes(img)
+                                if then == "r":
+                                    with c.reading(timeout=1.0):
+                                        return {k.encode(): c[k] for k in sorted(c.keys())}
+                                with c.writing(timeout=1.0):
+                                    c[NEWKEY.decode()] = NEWVAL
+                            finally:
+                                _forget(c)
+                            return self.read_coll()
+
+                        self._try(f"R6[survivor-collection({'reading' if pre == 'r' else 'writing'});{'reading' if then == 'r' else 'writing+put'}]", r6c, committed, session, ex, cutc, case, must_have=mh)
+                        n += 1
         # R3: the recovery append itself crashes at every byte; then R1 and R2 again
         if depth2 and ok2 and log2:
             for img2, pt2 in crashx.images(img, log2):
@@ -375,6 +475,12 @@ def case_list(ctx):
         # every byte of the small writes, a stride inside the 70 kB write (thorough: every byte)
         cases.append(("1rec", ("k1v1", "k1v70k", "k1v1"), "ukv", False))
         cases.append(("hdr", ("k1v70k",), "coll:4", False))
+    for f0v in (F0_VARIANTS if ctx.thorough else ("1rec",)):
+        for cls in ("k1v40z", "k2v42b"):
+            for via in (vias_all if ctx.thorough else ["ukv", "coll:4"]):
+                cases.append((f0v, (cls,), via, via == "ukv"))
+            cases.append((f0v, (cls, "k1v1"), "ukv", False))
+            cases.append((f0v, ("k1v1", cls), "coll:1000000", False))
     # deterministic rotation by the seed (order only)
     r = ctx.seed % len(cases)
     return cases[r:] + cases[:r]
@@ -412,7 +518,7 @@ def run_case(ctx, case):
     for img, pt in crashx.images(f0, ops, stride_above=stride):
         cutc = cut_class(final, len(f0), len(img), pt, ops)
         cdesc = {"f0": f0v, "spec": list(spec), "via": via, "crash_point": list(pt), "depth2": depth2}
-        n = rec.recover_all(img, committed, session, cutc, cdesc, depth2, coll=(len(final) < 2000))
+        n = rec.recover_all(img, committed, session, cutc, cdesc, depth2, coll=(len(final) < 2000), f0=f0)
         ctx.count(evaluations=n, transitions=n, traces=n, states=1)
         nimg += 1
         if 0 < len(img) - len(f0) < len(final) - len(f0):
@@ -461,4 +567,4 @@ def replay(ctx, case):
     pt = tuple(case["crash_point"])
     img = crashx.apply_ops(f0, ops, pt[0], pt[1])
     rec = Rec(ctx, d / "rec")
-    rec.recover_all(img, committed, dict(puts), cut_class(final, len(f0), len(img), pt, ops), case, case.get("depth2", False), coll=True)
+    rec.recover_all(img, committed, dict(puts), cut_class(final, len(f0), len(img), pt, ops), case, case.get("depth2", False), coll=True, f0=f0)
